@@ -55,7 +55,7 @@ REQUIRED = [
     'batches_compared', 'agg_compared', 'returned_agg_compared', 'twin_compared',
     'strict_cnt_checks', 'shard_union_checks', 'merged_results_compared', 'fanout_runs',
     'shared_iterator_runs', 'worker_threads', 'shim_futures_installed', 'fuse_by_chain_layouts',
-    'two_agg_stage_specs', 'sliced_merged_results_compared',
+    'two_agg_stage_specs', 'strategy_d_threaded', 'sliced_merged_results_compared',
     'sliced_shards_with_different_key_sets',
 ]
 CHUNK_TIMEOUT_S = {'quick': 300, 'thorough': 3000}
@@ -549,6 +549,14 @@ def chunk_native(ctx, spec):
                 'jitter': rng.randrange(1000)}
         run_b_native(ctx, case, want, twin)
         runs += 1
+    # (b) x (d): the sharded run of a pipeline whose source stage fans out over threads.
+    nt = rng.randint(1, 3)
+    layout = gen_threaded_layout(rng, pspec, nt, rng.choice(['fanout_seq', 'fanout_rr']))
+    ctx.count('strategy_d_threaded')
+    run_d(ctx, {'strategy': 'd', 'spec': pspec, 'layout': layout, 'k': rng.randint(2, 4),
+                'via': rng.choice(['make', 'make', 'ds']), 'jitter': rng.randrange(1000)},
+          want, twin)
+    runs += 1
     for j in range(spec['n_e']):
       if j % 4 == 3 and not pspec.get('mid_agg'):
         layout = {'kind': 'c16', 'agg_fused': rng.random() < 0.5,
